@@ -14,7 +14,8 @@ Locks: 0 = memory `inner`, 1 = memory `group_snapshots`, 2 = sqlite `connection`
 Modes: 0 = shared (read), 1 = exclusive (write / mutex).
 Emits `lockShape : List (Nat × Nat × String × List (Nat × Nat) × Bool)` with entries
 (backend 0=mem 1=sql, method number, rust name, sections, nested).  The numbering of the MDK trait
-methods is fixed (METHODS); OpenMLS `StorageProvider` methods get 100 + alphabetical index."""
+methods is fixed (METHODS); OpenMLS `StorageProvider` methods get 100 + alphabetical index;
+write_tree / tree / delete_tree additionally 90 / 91 / 92 (the store model's mls_write / mls_read / mls_delete)."""
 import re
 
 METHODS = ["save_group", "find_group_by_mls_group_id", "find_group_by_nostr_group_id", "all_groups",
@@ -28,6 +29,8 @@ METHODS = ["save_group", "find_group_by_mls_group_id", "find_group_by_nostr_grou
            "find_welcome_by_event_id", "pending_welcomes", "save_processed_welcome",
            "find_processed_welcome_by_event_id", "create_group_snapshot", "rollback_group_to_snapshot",
            "release_group_snapshot", "list_group_snapshots", "prune_expired_snapshots"]
+
+PROVIDER_REPR = [("write_tree", 90), ("tree", 91), ("delete_tree", 92)]
 
 LOCKS = {"inner": 0, "group_snapshots": 1, "connection": 2}
 # `self.x(` occurrences that are known not to be lock-taking methods of the storage struct
@@ -224,6 +227,12 @@ def extract(read, strip_comments, non_test, Missing):
         for k, name in enumerate(names):
             secs, nested = an.analyze(name)
             out.append((be, 100 + k, name, secs, nested))
+        # fixed numbers for the three kinds of OpenMLS rows the store model's mls ops stand for
+        for name, num in PROVIDER_REPR:
+            if name not in provider:
+                raise Missing(f"lockShape:StorageProvider:{struct}:{name}")
+            secs, nested = an.analyze(name)
+            out.append((be, num, name, secs, nested))
         summary[struct] = {"methods": len(METHODS) + len(names),
                            "multi_section": sorted(n for b, _, n, s, _ in out if b == be and len(s) > 1),
                            "nested": sorted(n for b, _, n, _, x in out if b == be and x)}
